@@ -23,6 +23,7 @@ MODE = "C13"
 FIXOWN = -1
 FIXSEG = -1
 FIXN = -1
+FIXC0 = -1
 INDICATORS = (ModalMark.MUSS, ModalMark.SOLL, ModalMark.KANN, PrefixOperator.X, PrefixOperator.O, PrefixOperator.U)
 OUTCOMES = (True, False, None)
 NCLS = 19  # 6 indicators x 3 outcomes + invalid
@@ -436,7 +437,8 @@ VP_INPUTS = (None, "", "Z01", "Z1", "E17", "ZZZ", "Z0", "Z01, Z1")
 
 def valuepool_step(n: int, c0: int, c1: int, c2: int, seg: int, inp: int, y0: int) -> bool:
     """
-    pre: (FIXN < 0 or n == FIXN) and (FIXSEG < 0 or seg == FIXSEG) and 1 <= n <= 3 and 0 <= c0 < 4 and 0 <= c1 < 4 and 0 <= c2 < 4 and 0 <= seg < 3 and 0 <= inp < len(VP_INPUTS) and 0 <= y0 <= 1
+    pre: (FIXN < 0 or n == FIXN) and (FIXSEG < 0 or seg == FIXSEG) and (FIXC0 < 0 or c0 == FIXC0) and (n >= 3 or c2 == 0) and (n >= 2 or c1 == 0)
+    pre: 1 <= n <= 3 and 0 <= c0 < 4 and 0 <= c1 < 4 and 0 <= c2 < 4 and 0 <= seg < 3 and 0 <= inp < len(VP_INPUTS) and 0 <= y0 <= 1
     post: _
     """
     # entry classes: 0 fulfilled, 1 unfulfilled, 2 undetermined, 3 invalid expression
